@@ -554,3 +554,108 @@ func ruleB8(r *Run) {
 		r.Undec("allocating pointer decoders", 0, "no function that allocates through *ptr and delegates its tag found")
 	}
 }
+
+// U4: a destination of an interface type WITH methods has another layout (itab word) than interface{}.
+
+func init() {
+	register("U4", "every decode routine that the kind tables install for reflect.Interface (decodeHandlers, decodePtrHandlers, valueDecoderFactories, ptrDecoderFactories) asks whether the interface type has methods (NumMethod) before it treats the slot as an interface{}, and the map decoder accepts an interface key or value type for its list/object short cuts only if it IS interface{} (compared with interfaceType): an interface{} written into a fmt.Stringer or error slot leaves a corrupt interface behind - the first method call through it is a fatal SIGSEGV that untrusted bytes can trigger", 6, ruleU4)
+}
+
+func ruleU4(r *Run) {
+	p := r.P
+	pkg := p.Pkg("io")
+	if pkg == nil {
+		r.Undec("package io", 0, "not found")
+		return
+	}
+	info := pkg.TypesInfo
+	n := 0
+	asksMethods := func(body ast.Node) bool {
+		found := false
+		ast.Inspect(body, func(k ast.Node) bool {
+			if c, ok := k.(*ast.CallExpr); ok && methodName(c) == "NumMethod" {
+				found = true
+			}
+			return true
+		})
+		return found
+	}
+	for _, file := range pkg.Syntax {
+		if strings.HasSuffix(p.Fset.File(file.Pos()).Name(), "_test.go") {
+			continue
+		}
+		ast.Inspect(file, func(m ast.Node) bool {
+			cl, ok := m.(*ast.CompositeLit)
+			if !ok {
+				return true
+			}
+			t := info.TypeOf(cl)
+			if t == nil {
+				return true
+			}
+			sl, ok := t.Underlying().(*types.Slice)
+			if !ok {
+				return true
+			}
+			// decode-side tables only: element is a DecodeHandler or a ValueDecoder factory
+			es := sl.Elem().String()
+			if !strings.HasSuffix(es, "io.DecodeHandler") && !strings.Contains(es, "io.ValueDecoder") {
+				return true
+			}
+			for _, el := range cl.Elts {
+				kv, ok := el.(*ast.KeyValueExpr)
+				if !ok {
+					continue
+				}
+				se, ok := ast.Unparen(kv.Key).(*ast.SelectorExpr)
+				if !ok || se.Sel.Name != "Interface" {
+					continue
+				}
+				n++
+				name := types.ExprString(kv.Value)
+				var body ast.Node
+				switch v := ast.Unparen(kv.Value).(type) {
+				case *ast.FuncLit:
+					body = v.Body
+					name = "a function literal"
+				case *ast.Ident:
+					if f, ok := info.Uses[v].(*types.Func); ok {
+						if d := p.Decl(f); d != nil {
+							body = d.Body
+						}
+					}
+				}
+				key := fmt.Sprintf("reflect.Interface entry of a decode table (%s) #%d", es[strings.LastIndex(es, ".")+1:], n)
+				if body == nil {
+					r.Undec(key, kv.Pos(), "cannot resolve the installed function "+name)
+					continue
+				}
+				r.Check(asksMethods(body), key, kv.Pos(), "asks NumMethod() before treating the slot as interface{}", name+" is installed for every destination of kind Interface and never asks whether the interface type has methods: for a fmt.Stringer, error or other non-empty interface slot it writes an interface{} (type word) where an itab word belongs - decoding succeeds, the first method call on the field crashes the process")
+			}
+			return true
+		})
+	}
+	for _, fn := range []string{"mapDecoder.canDecodeListAsMap", "mapDecoder.canDecodeObjectAsMap"} {
+		fd, _ := p.DeclOf("io", fn)
+		key := "interface keys/values in io." + fn
+		if fd == nil {
+			r.Undec(key, 0, "not found")
+			continue
+		}
+		n++
+		mentionsKind, compares := false, false
+		ast.Inspect(fd.Body, func(k ast.Node) bool {
+			if se, ok := k.(*ast.SelectorExpr); ok && se.Sel.Name == "Interface" {
+				mentionsKind = true
+			}
+			if id, ok := k.(*ast.Ident); ok && refName(id.Name) == "interfaceType" {
+				compares = true
+			}
+			return true
+		})
+		r.Check(compares || !mentionsKind, key, fd.Pos(), "accepted only when the type is interface{} itself", "the short cut accepts every key or value type of KIND Interface: the index or field name (and the decoded value) are stored as interface{} values, which corrupts a map whose key or element type is an interface with methods")
+	}
+	if n == 0 {
+		r.Undec("reflect.Interface entries of the decode tables", 0, "none found")
+	}
+}
